@@ -17,7 +17,7 @@ from .. import e2e, guard
 from ..common import Rng, hx, unhx
 from ..runner import Check
 from ..translate import graphql_tables
-from . import c17_bridge, c17_order
+from . import c17_bridge, c17_fields, c17_order
 
 NoneType = type(None)
 BUILTIN = {"Int": "int", "Float": "float", "String": "str", "Boolean": "bool", "ID": "str"}  # GraphQL spec §3.5
@@ -523,17 +523,18 @@ def member_info(cls, kind: str) -> dict[str, dict]:
         from pydantic_core import PydanticUndefined
 
         for n, f in cls.model_fields.items():
-            out[n] = {"required": f.is_required(), "default": None if f.default is PydanticUndefined else f.default, "alias": f.alias,
+            d = f.default_factory() if f.default_factory is not None else (None if f.default is PydanticUndefined else f.default)
+            out[n] = {"required": f.is_required(), "default": d, "alias": f.alias,
                       "has_default": f.default is not PydanticUndefined or f.default_factory is not None}
     elif kind == "pydantic.BaseModel":
         for n, f in cls.__fields__.items():
-            out[n] = {"required": bool(f.required), "default": f.default, "alias": f.alias if f.has_alias else None,
-                      "has_default": not f.required}
+            out[n] = {"required": bool(f.required), "default": f.default_factory() if f.default_factory is not None else f.default,
+                      "alias": f.alias if f.has_alias else None, "has_default": not f.required}
     elif kind == "dataclasses.dataclass":
         for f in dataclasses.fields(cls):
             has = f.default is not dataclasses.MISSING or f.default_factory is not dataclasses.MISSING
-            out[f.name] = {"required": not has, "default": None if f.default is dataclasses.MISSING else f.default, "alias": None,
-                           "has_default": has}
+            d = f.default_factory() if f.default_factory is not dataclasses.MISSING else (None if f.default is dataclasses.MISSING else f.default)
+            out[f.name] = {"required": not has, "default": d, "alias": None, "has_default": has}
     else:  # TypedDict
         # under `from __future__ import annotations` __required_keys__ is unreliable (documented CPython
         # limitation); type checkers and pydantic read the NotRequired[...] qualifier of the evaluated hint
@@ -788,10 +789,26 @@ def _check_module(ck, camp, fail, schema, mod, code, kind, flags, scalar_map, se
             m = info[fname]
             want_required = nn and not fo
             if m["required"] != want_required:
-                return fail("required", f"{n}.{fname}: {f.type} → required={m['required']}, expected {want_required}", field_type=str(f.type))
+                extra = {}
+                if want_required and any(fname in i.fields and not graphql.is_non_null_type(i.fields[fname].type) for i in getattr(t, "interfaces", ())):
+                    # the type's own field is non-null while an interface it implements declares the field nullable
+                    # (so the interface's class gives the member the default None)
+                    extra["trigger"] = "overrides_nullable_member_of_an_interface"
+                return fail("required", f"{n}.{fname}: {f.type} → required={m['required']}, expected {want_required}", field_type=str(f.type), **extra)
             has_sdl_default = graphql.is_input_object_type(t) and f.default_value is not graphql.Undefined and f.default_value is not None
             if not want_required and kind != "typing.TypedDict" and not has_sdl_default and not (m["has_default"] and m["default"] is None):
                 return fail("default_not_none", f"{n}.{fname}: {f.type} → default {m['default']!r}, expected None", field_type=str(f.type))
+            if has_sdl_default:
+                camp.hit("input_default:" + c17_fields.value_class(c17_fields.canon(f.default_value)))
+            # the default value of an input field is the one graphql-core reports (type-strict: 0, 0.0 and False differ;
+            # an Enum member stands for its value); a required member shows none (a non-null field is required)
+            if not want_required and kind != "typing.TypedDict" and has_sdl_default:
+                want_c = c17_fields.canon(f.default_value)
+                have_c = c17_fields.canon(m["default"]) if m["has_default"] else None
+                if have_c != want_c:
+                    return fail("input_default", f"{n}.{fname}: {f.type} = {c17_fields.show_canon(want_c)} in the schema → the member "
+                                + ("has no default" if have_c is None else f"defaults to {c17_fields.show_canon(have_c)}"),
+                                field_type=str(f.type), default_class=c17_fields.value_class(want_c))
             want = expected(f.type, True)
             have = denote(hints[fname])
             if want[0] == "any":  # what force-optional does to the nullability of a `!` field is not C17's business
@@ -974,6 +991,8 @@ def run(ck: Check) -> None:
         "type expressions are well-formed (no `!` directly on `!`): the SDL grammar and graphql-core both refuse the others (checked in the malformed stream)",
         "field names are prefixed f_ and enum values V_ so that member-name mangling (C07), keyword clashes and the type-name/field-name alias defect (C02) stay out of this property",
         "types named Query / Mutation are skipped by the generator by design (Gen/GraphqlTables.skippedTypeNames); documents name their root type differently",
+        "a non-null input field is required in the generated class whether or not the schema gives it a default (the property's statement: a non-null field is required); its default is then not observable on the member and is compared only under force-optional; conforming input objects supply every non-null field",
+        "default values are compared with graphql-core's coerced `default_value` (value_from_ast): type-strict (0, 0.0, False differ), a float by its repr, a dict regardless of key order, an Enum member as the value it stands for; TypedDict output has no defaults; msgspec output is not executable here",
         "a JSON object conforming to an object type supplies every field (nullable ones possibly null); input objects may leave nullable fields out; values of a custom scalar are values of its configured Python type",
         "the pydantic-v1-style output is executed on pydantic.v1 of pydantic 2.13; msgspec output is not executable here and is not part of this oracle",
         "ordering model: the named types are taken in the order of the generator's own build_graphql_schema(sdl).type_map (graphql-core's lexicographic sort is a parameter); MAX_RECURSION_COUNT of sort_data_models is not modelled (the schemas here need a handful of passes); one output module",
@@ -985,11 +1004,16 @@ def run(ck: Check) -> None:
     guard.campaign(ck, campaign_object_like, 120 if quick else 1000)
     ck.c17_obs = []
     me = sys.modules[__name__]
+    guard.campaign(ck, c17_fields.campaign_defaults, me, 14 if quick else 120, 30)
+    guard.campaign(ck, c17_fields.campaign_defaults_e2e, me, 10 if quick else 120)
+    guard.campaign(ck, c17_fields.campaign_clash, me, 16 if quick else 240)
     guard.campaign(ck, c17_order.campaign_family, me, quick)
     guard.campaign(ck, c17_order.campaign_all_orders, me, quick)
     guard.campaign(ck, campaign_e2e, 150 if quick else 1200, 2)
     guard.campaign(ck, c17_order.campaign_order, me)
     ck.c17_obs = []
+    ck.search_hooks.append(lambda c: c17_fields.search_from_disagreements(c, me))
+    ck.search_hooks.append(lambda c: c17_fields.search_members(c, me))
     ck.search_hooks.append(lambda c: c17_order.search_order(c, me))
     ck.search_hooks.append(search_wrappers)
     ck.search_hooks.append(shrink_first_failure)
